@@ -195,10 +195,12 @@ CLAIMED.update(
 CLAIMED.update(
     {
         "C27": (
-            "GUARD-DOM of cluster registration by add_to_test / visibility / ignore-list / defining-class tests (NNF edge formulas), argument-provenance rule on add_to_test, visibility table agreement, cached-reader freshness rule, positive-owner formula rule",
+            "GUARD-DOM of cluster registration by add_to_test / visibility / ignore-list / defining-class tests (NNF edge formulas), argument-provenance rule on add_to_test, interpreted visibility table, cached-reader freshness rule, positive-owner formula rule",
             "Decides the gatekeeping of the test cluster: every add_accessible_object_under_test call of the analysis is under `add_to_test`, which at each entry is "
             "`<analysed element>.__module__ == root_module_name` and is forwarded unchanged to the method analysis; registration of functions and methods is dominated by the "
-            "visibility test on the unqualified name (table: ALL nothing, PROTECTED private+mangled, PUBLIC private+protected; dependencies always private+protected), by the "
+            "visibility test on the unqualified name - __should_skip_by_visibility is interpreted over names x visibility x add_to_test x (function | method of real classes, whose mangled "
+            "attribute names come from Python itself) against the naming rules (ALL nothing, PROTECTED private+mangled-by-the-MRO, PUBLIC private+protected; dependencies always "
+            "private+protected); a callable renamed before registration (a lambda's assigned name) passed the test under the new name; the method analysis hands the class to the test -, by the "
             "ignore lists (work lists filtered by _is_blacklisted, methods by the ignore-list test, blacklisted modules skipped) read from the configuration at call time with no "
             "memoised reader, and - for methods - by the defining-class test, whose formula is true only when the defining class was positively resolved to the analysed class. "
             "Which members inspect enumerates for arbitrary modules (the 'exactly' direction) is not decided.",
